@@ -1,8 +1,17 @@
 (* C04 — rule actions write exactly the computed values to exactly the addressed facts (C04_statement in proofs/MemoTheorems.v). *)
-From Grule Require Import Base Values Syntax EngineAbs Facts Eval Refinement MemoTheorems.
+From Grule Require Import Base Values Syntax EngineAbs Facts Eval Frame FrameTheorems Refinement MemoTheorems.
 Theorem C04 : forall rules meth panics_inside mutating
   (meth_pure : forall fs f args ret fs', mutating f = false -> meth fs f args = Ok (ret, fs') -> fs' = fs),
   rules_ok rules mutating -> dependency_hypothesis rules meth mutating ->
   C04_statement rules meth panics_inside mutating.
 Proof. exact C04_proved. Qed.
 Print Assumptions C04.
+
+(* for flat rule sets (proofs/Frame.v: fields of top-level facts, constants, negation, parentheses, binary operators;
+   assignments and control built-ins) both hypotheses are theorems *)
+Theorem C04_flat : forall meth panics_inside mutating
+  (meth_pure : forall fs f args ret fs', mutating f = false -> meth fs f args = Ok (ret, fs') -> fs' = fs)
+  rules, flat_rules rules = true ->
+  C04_statement rules meth panics_inside mutating.
+Proof. exact FrameTheorems.C04_flat. Qed.
+Print Assumptions C04_flat.
